@@ -115,6 +115,12 @@ inline void op_copy_assign(vh::Rng & rng, const model::Node & m)
     typename Z::field_t & self = a;
     a = self;
     check<Z>(a, m, rng, OP_COPY_ASSIGN);
+    // over a field of the same type that held OTHER configuration values in every layer: nothing of the old
+    // value may survive the assignment
+    typename Z::field_t o = Z::template make_other<>();
+    o = f;
+    check<Z>(o, m, rng, OP_COPY_ASSIGN);
+    check<Z>(f, m, rng, OP_COPY_ASSIGN);
 }
 template <class Z>
 inline void op_move_assign(vh::Rng & rng, const model::Node & m)
@@ -124,6 +130,16 @@ inline void op_move_assign(vh::Rng & rng, const model::Node & m)
     typename Z::field_t a = Z::make();
     a = std::move(f);
     check<Z>(a, m, rng, OP_MOVE_ASSIGN);
+    typename Z::field_t f2 = Z::make();
+    Z::fill(f2);
+    typename Z::field_t o = Z::template make_other<>();
+    o = std::move(f2);
+    check<Z>(o, m, rng, OP_MOVE_ASSIGN);
+    // std::swap of two fields of one type with different configurations
+    typename Z::field_t p = Z::template make_other<>(), q = Z::make();
+    Z::fill(q);
+    std::swap(p, q);
+    check<Z>(p, m, rng, OP_MOVE_ASSIGN);
 }
 template <class Z>
 inline void op_config(vh::Rng & rng, const model::Node & m)
